@@ -87,6 +87,9 @@ pub fn run_property(prop: &str, tier: &str, threads: usize, budget: &Budget, fin
             bfs(&env, report, &wide, Roots::Seeds, ds, props, true);
             bfs(&env, report, &share, Roots::Seeds, dsh, props, true);
             bfs(&env, report, &statics, Roots::Empty, dst, props, true);
+            // "successful, failing or panicking": the isolation predicate under refused
+            // allocations and panicking callbacks (the deviation passes of C05 / C18)
+            deviation_passes(&env, report, &wide, if quick { 2 } else { 3 }, None, Some("C02"));
         }
         "C03" => {
             report.rule = "same graph as C01 with operations that fail without fault injection (huge reservations, huge size hints, bad indices, panicking predicates); shadow heap checked after every step (refcount == live handles, live blocks == referenced buffers, no access outside a live block, layouts repeated, guards and poison intact); every new state is closed in all K rotation orders and must leave zero live blocks".into();
@@ -96,6 +99,9 @@ pub fn run_property(prop: &str, tier: &str, threads: usize, budget: &Budget, fin
             bfs(&env, report, &wide, Roots::Seeds, ds, props, true);
             bfs(&env, report, &share, Roots::Seeds, dsh, props, true);
             bfs(&env, report, &statics, Roots::Empty, dst, props, true);
+            // histories whose operations fail because the allocator refuses, or whose callbacks
+            // panic: the same shadow-heap accounting (the deviation passes of C05 / C18)
+            deviation_passes(&env, report, &wide, if quick { 2 } else { 3 }, Some("C03"), None);
         }
         "C05" => {
             report.rule = "for every stored state of the explored graph, every enabled operation in both forms (plain / try_), every allocator request k the operation issues is refused in turn (1 deviation); second refusals inside the same call and in every follow-up operation (2 deviations); distinct = distinct (operation, target storage, form, outcome class)".into();
@@ -109,7 +115,7 @@ pub fn run_property(prop: &str, tier: &str, threads: usize, budget: &Budget, fin
                 states.extend(flatten(&bfs(&env, report, &wide, Roots::Seeds, 0, Props::default(), true), 0));
             }
             let stats = ProbeStats::default();
-            let cx = ProbeCtx { prof: &wide, findings, stats: &stats };
+            let cx = ProbeCtx { prof: &wide, findings, stats: &stats, heap_as: None, iso_as: None };
             let cfg = FaultCfg { followups: true, pairs: true };
             let (done, complete) = for_each_state(&states, threads, budget, |h| probes::fault_probe(&cx, h, &cfg));
             report.add_probe(stats.to_json("allocation-refusal", done, complete));
@@ -122,7 +128,7 @@ pub fn run_property(prop: &str, tier: &str, threads: usize, budget: &Budget, fin
             let mut states = flatten(&stored, dw);
             states.extend(flatten(&bfs(&env, report, &wide, Roots::Seeds, 0, Props::default(), true), 0));
             let stats = ProbeStats::default();
-            let cx = ProbeCtx { prof: &wide, findings, stats: &stats };
+            let cx = ProbeCtx { prof: &wide, findings, stats: &stats, heap_as: None, iso_as: None };
             let (done, complete) = for_each_state(&states, threads, budget, |h| probes::size_probe(&cx, h));
             probes::size_ctor_sweep(&cx);
             report.add_probe(stats.to_json("size-arguments", done, complete));
@@ -135,13 +141,13 @@ pub fn run_property(prop: &str, tier: &str, threads: usize, budget: &Budget, fin
             let mut states = flatten(&stored, dw);
             states.extend(flatten(&bfs(&env, report, &wide, Roots::Seeds, 0, Props::default(), true), 0));
             let stats = ProbeStats::default();
-            let cx = ProbeCtx { prof: &wide, findings, stats: &stats };
+            let cx = ProbeCtx { prof: &wide, findings, stats: &stats, heap_as: None, iso_as: None };
             let (done, complete) = for_each_state(&states, threads, budget, |h| probes::index_probe(&cx, h));
             report.add_probe(stats.to_json("every-index/wide-states", done, complete));
             let stored = bfs(&env, report, &index, Roots::Empty, di, Props::only("C01"), true);
             let states = flatten(&stored, di.min(2));
             let stats = ProbeStats::default();
-            let cx = ProbeCtx { prof: &index, findings, stats: &stats };
+            let cx = ProbeCtx { prof: &index, findings, stats: &stats, heap_as: None, iso_as: None };
             let (done, complete) = for_each_state(&states, threads, budget, |h| probes::index_probe(&cx, h));
             report.add_probe(stats.to_json("every-index/index-states", done, complete));
             let sp = sweeps::sweep_profile();
@@ -210,7 +216,7 @@ pub fn run_property(prop: &str, tier: &str, threads: usize, budget: &Budget, fin
             let mut states = flatten(&stored, dp);
             states.extend(flatten(&bfs(&env, report, &wide, Roots::Seeds, 0, Props::default(), true), 0));
             let stats = ProbeStats::default();
-            let cx = ProbeCtx { prof: &wide, findings, stats: &stats };
+            let cx = ProbeCtx { prof: &wide, findings, stats: &stats, heap_as: None, iso_as: None };
             let (done, complete) = for_each_state(&states, threads, budget, |h| probes::shrink_probe(&cx, h));
             report.add_probe(stats.to_json("every-m", done, complete));
         }
@@ -258,7 +264,7 @@ pub fn run_property(prop: &str, tier: &str, threads: usize, budget: &Budget, fin
             let mut states = flatten(&stored, dw);
             states.extend(flatten(&bfs(&env, report, &wide, Roots::Seeds, 0, Props::default(), true), 0));
             let stats = ProbeStats::default();
-            let cx = ProbeCtx { prof: &wide, findings, stats: &stats };
+            let cx = ProbeCtx { prof: &wide, findings, stats: &stats, heap_as: None, iso_as: None };
             let (done, complete) = for_each_state(&states, threads, budget, |h| probes::panic_probe(&cx, h));
             report.add_probe(stats.to_json("callback-panics", done, complete));
         }
@@ -266,6 +272,23 @@ pub fn run_property(prop: &str, tier: &str, threads: usize, budget: &Budget, fin
             report.machinery_errors.push(format!("seqmc has no plan for property {prop}"));
         }
     }
+}
+
+/// Runs the allocation-refusal and callback-panic probes over every stored state up to
+/// `depth`, attributing heap-accounting / isolation violations to the given property.
+fn deviation_passes(env: &Env, report: &mut Report, prof: &Profile, depth: usize, heap_as: Option<&'static str>, iso_as: Option<&'static str>) {
+    let stored = bfs(env, report, prof, Roots::Empty, depth, Props::default(), true);
+    let mut states = flatten(&stored, depth);
+    states.extend(flatten(&bfs(env, report, prof, Roots::Seeds, 0, Props::default(), true), 0));
+    let stats = ProbeStats::default();
+    let cx = ProbeCtx { prof, findings: env.findings, stats: &stats, heap_as, iso_as };
+    let cfg = FaultCfg { followups: true, pairs: false };
+    let (done, complete) = for_each_state(&states, env.threads, env.budget, |h| probes::fault_probe(&cx, h, &cfg));
+    report.add_probe(stats.to_json("allocation-refusal", done, complete));
+    let stats = ProbeStats::default();
+    let cx = ProbeCtx { prof, findings: env.findings, stats: &stats, heap_as, iso_as };
+    let (done, complete) = for_each_state(&states, env.threads, env.budget, |h| probes::panic_probe(&cx, h));
+    report.add_probe(stats.to_json("callback-panics", done, complete));
 }
 
 pub fn profile_by_name(name: &str) -> Option<Profile> {
@@ -339,7 +362,7 @@ pub fn replay_file(path: &str) -> i32 {
         println!("probe case: {extra}");
         let findings = Findings::default();
         let stats = ProbeStats::default();
-        let cx = ProbeCtx { prof: &prof, findings: &findings, stats: &stats };
+        let cx = ProbeCtx { prof: &prof, findings: &findings, stats: &stats, heap_as: None, iso_as: None };
         let _ = quiet(|| drop(p));
         probes::replay_case(&cx, &hist, v["signature"].as_str().unwrap_or(""), extra);
         for f in findings.map.lock().unwrap().values() {
